@@ -117,7 +117,9 @@ def checkFfiLine (kvs : List (String × String)) (rhs : String) : String := Id.r
   let g (k : String) := (lookup okv k).getD ""
   -- C == native
   for (c, nk) in [("cw", "nw"), ("ceq", "neq"), ("cmc", "nmc"), ("cr", "nr"), ("cc", "nc"), ("cp", "np"),
-      ("xs", "nxs"), ("crc", "nrc"), ("cwb", "nwb"), ("cpb", "npb")] do
+      ("xs", "nxs"), ("crc", "nrc"), ("cwb", "nwb"), ("cpb", "npb"),
+      -- counts after the weight tables were updated in place (rotated profile), and back
+      ("cr2", "nr2"), ("cc2", "nc2"), ("cp2", "np2"), ("cr3", "nr")] do
     if g c != g nk then return s!"FAIL SPEC the C interface returned {c}={g c} but the native operations {nk}={g nk}"
   let nmax := n + countNewVars ops
   if g "nvars" != toString nmax then return "FAIL PARSE nvars"
@@ -172,6 +174,10 @@ def checkFfiLine (kvs : List (String × String)) (rhs : String) : String := Id.r
     let last := st.handles.getLastD .tru
     let wrW : Weights Rat := fun v => let (l, h) := wr.getD v (0, 0); (mkRat l 8, mkRat h 8)
     if showRat (Bdd.wmc Sem.realOps wrW last) != g "cr" then return "FAIL MODEL real count"
+    let nw := wr.length
+    let wrW2 : Weights Rat := fun v => if v < nw then wrW ((v + 1) % nw) else wrW v
+    if showRat (Bdd.wmc Sem.realOps wrW2 last) != g "cr2" then
+      return s!"FAIL SPEC bdd_wmc after the weight table was updated in place: {g "cr2"}, weighted sum under the updated weights {showRat (Bdd.wmc Sem.realOps wrW2 last)}"
     let wcS := ((lookup kvs "wc").getD "").splitOn ","
     let wcW : Weights Sem.Cx := fun v =>
       match ((wcS.getD v "").splitOn ":").mapM String.toInt? with
